@@ -27,7 +27,7 @@ def oracle_verify(pub_hex: str, data: bytes, sig_hex: str) -> bool:
         return False
 
 
-def alpha_call(envelope, auth, thr, gpg, outcome):
+def alpha_call(envelope, auth, thr, gpg, outcome, must=None):
     """Abstract one verify_signable call.  Returns event dict or None if it does not fit the trace bounds."""
     Pb = twin_canon(envelope["signed"])
     idx = {}
@@ -69,7 +69,8 @@ def alpha_call(envelope, auth, thr, gpg, outcome):
     if len(idx) > NK or na > NA or nj > NJ:
         return None
     return {"api": "verify_signable", "entries": entries, "auth": sorted({idx[h] for h in auth}),
-            "thr": thr, "gpg": gpg, "outcome": lib.family(outcome)}
+            "thr": thr, "gpg": gpg, "outcome": lib.family(outcome),
+            "must": sorted({idx[h] for h in (must or []) if h in idx})}
 
 
 # ------------------------------------------------------------------------------------------ generator
@@ -170,6 +171,12 @@ def random_traces(run, n, owner, api="verify_signable"):
             traces.append(t)
             conc[tid] = c
             run.evaluations += len(t["events"])
+    judge(run, traces, conc, owner)
+
+
+def judge(run, traces, conc, owner, label="trace"):
+    if not traces:
+        return
     seen = validate(run, traces)
     nrej = 0
     for t in traces:
@@ -178,10 +185,11 @@ def random_traces(run, n, owner, api="verify_signable"):
             line = seen[(t["id"], i)]
             if not line["ok"]:
                 rejected = True
-                o = {"observed": ev["outcome"], "allowed": line["allowed"]}
+                o = {"observed": ev["outcome"], "allowed": line["allowed"], "must_ok": line.get("must_ok", True)}
                 c = conc[t["id"]][i - 1]
                 if owner(o):
-                    run.violation(f"trace verify_signable gpg={ev['gpg']} allowed={'|'.join(line['allowed'])} observed={ev['outcome']}",
+                    run.violation(f"{label} verify_signable gpg={ev['gpg']} allowed={'|'.join(line['allowed'])} observed={ev['outcome']}"
+                                  + ("" if line.get("must_ok", True) else " (a signature made by the library/fixture signer is not a valid signature per the independent oracle)"),
                                   {"kind": "verify_signable", "concrete": c, "allowed": line["allowed"], "event": ev,
                                    "trace_id": t["id"], "event_index": i})
                 else:
@@ -196,3 +204,82 @@ def random_traces(run, n, owner, api="verify_signable"):
     if traces:
         run.sample({"trace": traces[0]})
     run.extra["traces_rejected"] = run.extra.get("traces_rejected", 0) + nrej
+
+
+def library_signed_traces(run, n, owner):
+    """Envelopes produced by the library's own wrap_as_signable / sign_signable, verified under the
+    corresponding public keys (plus junk added afterwards)."""
+    signing = lib.cct("signing")
+    common = lib.cct("common")
+    fn = lib.cct("authentication").verify_signable
+    keys = gamma.Keys(NK, run.seed, offset=200)
+    r = random.Random(run.seed * 31 + 5)
+    traces, conc = [], {}
+    for tid in range(1, n + 1):
+        P, _ = gamma.make_payloads(r)
+        env = signing.wrap_as_signable(P)
+        ks = r.sample(range(1, NK + 1), r.randint(1, 5))
+        for k in ks:
+            signing.sign_signable(env, common.PrivateKey.from_bytes(keys.seeds[k]))
+        must = [keys.pub[k] for k in ks]
+        if r.random() < 0.4:
+            env["signatures"][gamma.junk_name(r, nonascii=False, surrogates=False)] = copy.deepcopy(r.choice(gamma.JUNK_VALUES))
+        auth = list(must) + [keys.pub[k] for k in range(1, NK + 1) if k not in ks and r.random() < 0.2]
+        r.shuffle(auth)
+        thr = r.randint(1, len(ks))
+        out, exc, _ = lib.call(fn, env, auth, thr, gpg=False)
+        ev = alpha_call(env, auth, thr, False, out, must=must)
+        if ev is None:
+            continue
+        run.evaluations += 1
+        traces.append({"id": tid, "events": [ev]})
+        conc[tid] = [{"envelope": env, "authorized": auth, "threshold": thr, "gpg": False, "observed": out, "exc": exc}]
+    judge(run, traces, conc, owner, label="library-signed")
+    run.extra["library_signed_envelopes"] = len(traces)
+
+
+def fixture_traces(run, owner):
+    """Signed fixtures shipped with the repository (earlier releases' signatures must stay valid)."""
+    from .core import REPO
+    fn = lib.cct("authentication").verify_signable
+
+    def load(rel):
+        with open(os.path.join(REPO, rel), "rb") as f:
+            return json.load(f)
+    calls = []   # (label, envelope, authorized, threshold, gpg)
+    for d in ("tests/testdata", "demo"):
+        roots = {}
+        for n in (1, 2, 3):
+            p = f"{d}/{n}.root.json"
+            if os.path.exists(os.path.join(REPO, p)):
+                roots[n] = load(p)
+        for n, md in roots.items():
+            own = md["signed"]["delegations"]["root"]
+            calls.append((f"{d}/{n}.root.json under its own root rule", md, own["pubkeys"], own["threshold"], True))
+            if n - 1 in roots:
+                prev = roots[n - 1]["signed"]["delegations"]["root"]
+                calls.append((f"{d}/{n}.root.json under {n-1}.root.json's root rule", md, prev["pubkeys"], prev["threshold"], True))
+        km = f"{d}/key_mgr.json"
+        if os.path.exists(os.path.join(REPO, km)) and roots:
+            for n, md in roots.items():
+                rule = md["signed"]["delegations"].get("key_mgr")
+                if rule:
+                    calls.append((f"{km} under {n}.root.json's key_mgr rule", load(km), rule["pubkeys"], rule["threshold"], False))
+    rp = "tests/testdata/repodata_short_signed_sample.json"
+    if os.path.exists(os.path.join(REPO, rp)):
+        rd = load(rp)
+        for art, sigs in rd.get("signatures", {}).items():
+            mdv = rd.get("packages", {}).get(art, rd.get("packages.conda", {}).get(art))
+            if mdv is not None and isinstance(sigs, dict) and len(sigs) <= 6:
+                calls.append((f"{rp}:{art}", {"signatures": sigs, "signed": mdv}, list(sigs), 1, False))
+    traces, conc = [], {}
+    for tid, (label, env, auth, thr, gpg) in enumerate(calls, 1):
+        out, exc, _ = lib.call(fn, copy.deepcopy(env), list(auth), thr, gpg=gpg)
+        ev = alpha_call(env, auth, thr, gpg, out)
+        if ev is None:
+            continue
+        run.evaluations += 1
+        traces.append({"id": tid, "events": [ev]})
+        conc[tid] = [{"label": label, "envelope": env, "authorized": auth, "threshold": thr, "gpg": gpg, "observed": out, "exc": exc}]
+    judge(run, traces, conc, owner, label="fixture")
+    run.extra["fixture_calls"] = [c[0] for c in calls]
